@@ -512,10 +512,115 @@ func c10Inputs(r *wk.Rand, shape *gen.Shape) []any {
 // matched to the description that caused it.
 var traceC10 = os.Getenv("VERIF_TRACE") != ""
 
+// c10RepeatedIDs: object IDs are unique only within one scope. A description in which a nested scope's object (or an
+// object used inline as a type) repeats the ID of an object of an enclosing scope, with something broken BELOW the
+// repeated one (a scope without its root object, a root whose id differs from its key, a dangling reference, an
+// unparsable default, a bad pattern), placed directly / in a list / in a map: refused, or usable with inputs that
+// reach the broken place.
+func c10RepeatedIDs(c *wk.Ctx) {
+	m := func(kv ...any) map[string]any {
+		out := map[string]any{}
+		for i := 0; i+1 < len(kv); i += 2 {
+			out[kv[i].(string)] = kv[i+1]
+		}
+		return out
+	}
+	intT := m("type_id", "integer")
+	brokens := map[string]func() (any, any){ // the broken type, and an input value for it
+		"scope without its root object": func() (any, any) { return m("type_id", "scope", "root", "missing", "objects", m()), m() },
+		"scope whose root has another id": func() (any, any) {
+			return m("type_id", "scope", "root", "R", "objects", m("R", m("id", "S", "properties", m("n", m("type", intT))))), m("n", int64(1))
+		},
+		"dangling reference": func() (any, any) { return m("type_id", "ref", "id", "Nowhere"), m() },
+		"object with an unparsable default": func() (any, any) {
+			return m("type_id", "object", "id", "D", "properties", m("n", m("type", intT, "default", "{not json"))), m()
+		},
+		"string with a bad pattern": func() (any, any) { return m("type_id", "string", "pattern", "(["), "x" },
+		"nothing broken":            func() (any, any) { return intT, int64(1) },
+	}
+	wraps := map[string]func(t, v any) (any, any){
+		"directly":  func(t, v any) (any, any) { return t, v },
+		"in a list": func(t, v any) (any, any) { return m("type_id", "list", "items", t), []any{v} },
+		"in a map": func(t, v any) (any, any) {
+			return m("type_id", "map", "keys", m("type_id", "string"), "values", t), m("k", v)
+		},
+	}
+	for _, bname := range sortedKeys(brokens) {
+		for _, wname := range sortedKeys(wraps) {
+			for _, how := range []string{"nested scope", "inline object", "nested scope, other id (control)"} {
+				for depth := 1; depth <= 2; depth++ {
+					mk := func() (any, []any) {
+						bt, bv := brokens[bname]()
+						qt, qv := wraps[wname](bt, bv)
+						innerID := "A"
+						if strings.Contains(how, "control") {
+							innerID = "Inner"
+						}
+						var pType any
+						var in any = m("q", qv)
+						inputs := []any{m(), m("p", m())}
+						props := m("q", m("type", qt))
+						for d := 0; d < depth; d++ {
+							if how == "inline object" {
+								pType = m("type_id", "object", "id", innerID, "properties", props)
+							} else {
+								pType = m("type_id", "scope", "root", innerID, "objects", m(innerID, m("id", innerID, "properties", props)))
+							}
+							props = m("p", m("type", pType))
+							in = m("p", in)
+							inputs = append(inputs, cmpx.DeepCopy(in))
+						}
+						return m("root", "A", "objects", m("A", m("id", "A", "properties", props), "B", m("id", "B", "properties", m("n", m("type", intT))))), inputs
+					}
+					what := fmt.Sprintf("%s %s below an object that repeats an outer ID (%s, depth %d)", bname, wname, how, depth)
+					wit := map[string]any{"mutation": what}
+					doc, inputs := mk()
+					wit["description"] = clipStr(cmpx.Canon(doc), 1500)
+					c.Note("repeated-id UnserializeScope: " + what)
+					c.Count("mutants")
+					c.Count("repeated_id_documents")
+					c.Eval(wk.Hash64("repeated-id", what), true)
+					var sc *schema.ScopeSchema
+					var err error
+					if p, site, msg, _ := wk.Guard(func() { sc, err = schema.UnserializeScope(doc) }); p {
+						c.Violation("C10:panic-on-load:UnserializeScope:"+site, "UnserializeScope panicked on a description: "+msg, wit)
+						continue
+					}
+					if err == nil && sc != nil {
+						c.Count("mutants_accepted")
+						c10Exercise(c, "scope", sc, inputs, wit)
+					} else {
+						c.Count("repeated_id_documents_refused")
+					}
+					// the same document as the input and the output of a step
+					doc1, _ := mk()
+					doc2, _ := mk()
+					full := m("steps", m("s", m("id", "s", "input", doc1, "outputs", m("ok", m("schema", doc2)))))
+					c.Note("repeated-id UnserializeSchema: " + what)
+					var sch *schema.SchemaSchema
+					if p, site, msg, _ := wk.Guard(func() { sch, err = schema.UnserializeSchema(full) }); p {
+						c.Violation("C10:panic-on-load:UnserializeSchema:"+site, "UnserializeSchema panicked on a description: "+msg, wit)
+						continue
+					}
+					if err == nil && sch != nil {
+						if st := sch.Steps()["s"]; st != nil {
+							c10Exercise(c, "s.input", st.Input(), inputs, wit)
+							if o := st.Outputs()["ok"]; o != nil {
+								c10Exercise(c, "s.outputs.ok", o.Schema(), inputs, wit)
+							}
+						}
+					}
+				}
+			}
+		}
+	}
+}
+
 func runC10(c *wk.Ctx) {
-	c.Meta("rule", "valid descriptions (SelfSerialize of generated scopes and of generated plugin schemas with several steps, outputs, signal handlers and emitters; hand-written tricky reference shapes) are treated as mutable trees. EVERY node of a description receives every applicable single structural mutation: delete, retype (nil / string / int / map / list), rename the key, duplicate over a sibling, re-point (object ids, root, reference ids and namespaces, discriminator field names to another / a missing / an empty name), each of the 15 type ids, unparsable / wrongly typed / empty defaults, invalid patterns, flipped inlining and boolean flags, negative and 2^63 bounds, zero and negative unit multipliers; pairs of mutations are sampled; grammar-free random trees are added. Each mutant goes through UnserializeScope (+ApplySelf) or UnserializeSchema, also after a CBOR encode/decode, and through Client.ReadSchema from a fake server's hello. Whatever is accepted is exercised: Unserialize / data-mode ValidateCompatibility / Validate / Serialize with valid, perturbed and hostile inputs on the scope or on every step input, output and signal data schema, plus ReflectedType, ValidateReferences, Properties, GetDefaults, SelfSerialize. Every call is journalled and guarded. distinct = hash(description, mutation); non-trivial = the mutant differs from the original Directed: descriptions of chains of 4..49 single-property objects (constructor-built and rebuilt), lone values of every kind.")
+	c.Meta("rule", "valid descriptions (SelfSerialize of generated scopes and of generated plugin schemas with several steps, outputs, signal handlers and emitters; hand-written tricky reference shapes) are treated as mutable trees. EVERY node of a description receives every applicable single structural mutation: delete, retype (nil / string / int / map / list), rename the key, duplicate over a sibling, re-point (object ids, root, reference ids and namespaces, discriminator field names to another / a missing / an empty name), each of the 15 type ids, unparsable / wrongly typed / empty defaults, invalid patterns, flipped inlining and boolean flags, negative and 2^63 bounds, zero and negative unit multipliers; pairs of mutations are sampled; grammar-free random trees are added. Each mutant goes through UnserializeScope (+ApplySelf) or UnserializeSchema, also after a CBOR encode/decode, and through Client.ReadSchema from a fake server's hello. Whatever is accepted is exercised: Unserialize / data-mode ValidateCompatibility / Validate / Serialize with valid, perturbed and hostile inputs on the scope or on every step input, output and signal data schema, plus ReflectedType, ValidateReferences, Properties, GetDefaults, SelfSerialize. Every call is journalled and guarded. distinct = hash(description, mutation); non-trivial = the mutant differs from the original Directed: descriptions of chains of 4..49 single-property objects (constructor-built and rebuilt), lone values of every kind. Directed: descriptions in which a nested scope's object or an inline object repeats the ID of an object of an enclosing scope, above a scope without its root / a root with another id / a dangling reference / an unparsable default / a bad pattern (directly, in a list, in a map; as a scope and as the input and output of a step).")
 	c.Meta("assumptions", []string{"a scope returned by UnserializeScope is linked with ApplySelf before use (part of loading it); an unlinked reference to an EXTERNAL namespace is the caller's to link and is not exercised"})
 	c.Floor("mutants", 5000)
+	c.Floor("repeated_id_documents", 100)
 	c.Floor("mutants_accepted", 300)
 	c.Floor("operations_on_accepted", 20000)
 	if c.Mine(0) {
@@ -524,6 +629,10 @@ func runC10(c *wk.Ctx) {
 		c04DefaultChains(c, "C10")
 		c.Note("descriptions of chains of single-property objects")
 		c04WrapperChains(c, "C10")
+	}
+	if c.Mine(1) {
+		c.Begin(1, "descriptions in which a nested object repeats an outer ID above something broken")
+		c10RepeatedIDs(c)
 	}
 	nDesc := c.N(48, 900)
 	const chunks = 8 // the mutants of one description are spread over several cases (and so over the workers)
